@@ -150,6 +150,21 @@ FAMILY = [
     Struct("SUpperBound", [F("a", "u32"), F("x", "u32", vfrom=0, vto=1)], repr="C", version=2, tags=["older"]),
     # a live field with a closed version range strictly inside the history (not packed: plain repr)
     Struct("SMidRange", [F("a", "u32"), F("b", "u16", vfrom=1, vto=2), F("c", "u8")], version=3, tags=["older"]),
+    # versioned types nested inside other types: the version must be passed down to nested serializers / packed decisions
+    Struct("SOuterVer", [F("pre", "u8"), F("inner", "SVerOrder"), F("post", "u8")], version=2, tags=["older"]),
+    Struct("SContVer", [F("o", "Option<SVerOrder>"), F("arr", "[SVerOrder; 2]"), F("b", "Box<SVerOrder>")], version=2, tags=["older", "novec"]),
+    # a field with a version range inside an enum variant
+    Enum("EVerField", [V("A"), V("B", [F("x", "u32"), F("y", "u16", vfrom=1)])], version=1, tags=["older", "novec"]),
+    # Removed fields at the first / last position of a variant of an explicit-repr enum (the positional layout checks
+    # "payload starts after the discriminant" / "payload ends at size_of" must not disappear with them)
+    Enum("ERemFirst", [V("V", [F("old", "Removed<u8>", vfrom=0, vto=0), F("val", "u32")])], repr="u8", version=1, tags=["novec"]),
+    Enum("ERemLast", [V("V", [F("0", "u8"), F("1", "Removed<u8>", vfrom=0, vto=0)], tuple_=True)], repr="u16", width=2, version=1, tags=["novec"]),
+    # a versioned field in an EARLIER variant of an explicit-repr enum
+    Enum("EVerPacked", [V("Dot", [F("0", "u8"), F("1", "u8", vfrom=1)], tuple_=True), V("Line", [F("0", "u8"), F("1", "u8")], tuple_=True)],
+         repr="u8", version=1, tags=["older"]),
+    # a single-field struct with trailing padding, and a struct embedding it
+    Struct("SAlignedTag", [F("tag", "u8")], repr="align(4)"),
+    Struct("SRecordAl", [F("tag", "SAlignedTag"), F("value", "u32")]),
     # a variant added at version 2 declared BEFORE an older variant
     Enum("EVerMid", [V("A"), V("B", [F("0", "u32")], tuple_=True, vfrom=2), V("C", [F("0", "u16")], tuple_=True)], version=2, tags=["novec"]),
 ]
@@ -185,6 +200,11 @@ HISTORIES = {
         Struct("HE1", [F("a", "u32"), F("r", "u32", vfrom=1), F("c", "u32")], repr="C", version=1),
         Struct("HE2", [F("a", "u32"), F("r", "u32", vfrom=1), F("c", "u32")], repr="C", version=2),
         Struct("HE3", [F("a", "u32"), F("r", "Removed<u32>", vfrom=1, vto=2), F("c", "u32")], repr="C", version=3),
+    ],
+    "HG": [
+        Struct("HG0", [F("a", "u8")], version=0),
+        Struct("HG1", [F("a", "u8"), F("flags", "u16", vfrom=1)], version=1),
+        Struct("HG2", [F("a", "u8"), F("flags", "AbiRemoved<u16>", vfrom=1, vto=1)], version=2),
     ],
     "HF": [
         Enum("HF0", [V("A"), V("B", [F("0", "u8")], tuple_=True)], version=0),
@@ -509,7 +529,7 @@ def main():
             reg.append('    h(mal_%s, 64, crate::containers::malformed_fixed::<%s, _, %d>, "complete", "C06", "%s Deserialize; Deserializer::read_*", "");' % (n, T, m, der))
     nat = ["// GENERATED by /verif/gen/gen_family.py -- native (small-scope enumeration) registry for the family",
            "pub fn native_family_registry() -> Vec<(&'static str, fn(&mut crate::src::EnumSrc))> {", "    vec!["]
-    for n in CONTAINER_TYPES + ["EVerMid", "SWithOnly", "EDir", "EOnly", "SVerOrder", "SAbiRem", "SMidRange"]:
+    for n in CONTAINER_TYPES + ["EVerMid", "SWithOnly", "EDir", "EOnly", "SVerOrder", "SAbiRem", "SMidRange", "SOuterVer", "SContVer", "EVerField", "SDeferred3", "SDeferred4", "E257", "EVerPacked", "ERemFirst", "ERemLast", "SRecordAl"]:
         nat.append('        // n(nschema_%s, "C12", "derive WithSchema for %s; savefile::get_schema; derive Serialize", "small-scope values of %s at its current version");' % (n, n, n))
         nat.append('        ("nschema_%s", (|s: &mut crate::src::EnumSrc| crate::schemaread::schema_faithful::<crate::family_gen::%s, _>(s)) as fn(&mut crate::src::EnumSrc)),' % (n, n))
     xnat = []
@@ -548,7 +568,7 @@ def main():
                 if i < j and project_ok(nw, o):
                     nat.append('        // n(nolder_%s_%s, "C18", "derive(Savefile) Serialize for %s writing version %d; derive Deserialize for %s; AbiRemoved::serialize", "small-scope values of %s (bounded fallback for older_%s_%s)");' % (nw.name, o.name, nw.name, o.version, o.name, nw.name, nw.name, o.name))
                     nat.append('        ("nolder_%s_%s", (|s: &mut crate::src::EnumSrc| crate::family::write_older_read::<crate::family_gen::%s, crate::family_gen::%s, _>(s)) as fn(&mut crate::src::EnumSrc)),' % (nw.name, o.name, nw.name, o.name))
-    for n in ["SVerOrder", "SAbiRem", "SMidRange"]:
+    for n in ["SVerOrder", "SAbiRem", "SMidRange", "SOuterVer", "SContVer", "EVerField"]:
         nat.append('        // n(nschema_versions_%s, "C12", "derive WithSchema for %s at every version <= current; savefile::get_schema; derive Serialize writing older versions", "small-scope values of %s, every version 0..=current");' % (n, n, n))
         nat.append('        ("nschema_versions_%s", (|s: &mut crate::src::EnumSrc| crate::schemaread::schema_faithful_versions::<crate::family_gen::%s, _>(s)) as fn(&mut crate::src::EnumSrc)),' % (n, n))
     for n in CONTAINER_TYPES:
